@@ -250,6 +250,26 @@ theorem any_decrease_requires_matured (s : St) (h : Int) (op : Op) (k : String)
   | remove k0 wb a hc =>
     exact removal k0 _ _ rfl (fun s' hs' => remove_requires_matured_wbasis s s' h k0 wb a hc hs') hdec
 
+/-! ### stored records are the provider's real requests, at their real heights -/
+
+/-- Along every history from the empty chain, for every provider and every height q: the units of the
+    stored unlock records dated q never exceed the units of the unlock requests that were ACCEPTED at
+    height q.  No message — in particular no parameter change by the admin — re-dates, duplicates or
+    grows a request; so "matured" always refers to the height at which the request was really made. -/
+theorem stored_records_are_requests (L C : Nat) (ops : List (Int × Op)) (k : String) :
+    genuineOK ((runR (St.init L C) (fun _ => []) ops).2 k)
+      (unlocksOf ((runR (St.init L C) (fun _ => []) ops).1.lps k)) = true := by
+  have hG : G (St.init L C) (fun _ => []) := by intro k q; simp [St.init, unlocksOf, unitsAt, total]
+  have := G_run ops hG k
+  unfold genuineOK
+  rw [List.all_eq_true]
+  intro r _
+  exact decide_eq_true (this r.height)
+
+/-- a parameter change leaves every provider record exactly as it was -/
+theorem param_change_touches_no_record (s : St) (h : Int) (L' C' : Nat) (k : String) :
+    (step s h (.setParams L' C')).1.lps k = s.lps k := rfl
+
 /-! ### outstanding_le_units -/
 
 /-- After every message of every history whose block heights do not decrease (and are valid int64
@@ -372,6 +392,9 @@ example : ((run (St.init 3 50) (exampleHistory.take 4)).lps "p") = some ⟨60, [
 /-- the same removal when the margin-health stage would queue it: refused, the request is untouched -/
 example : (step (run (St.init 3 50) (exampleHistory.take 2)) 13 (.removeUnits "p" 40 .queue)).2 = .err .queued ∧
     (step (run (St.init 3 50) (exampleHistory.take 2)) 13 (.removeUnits "p" 40 .queue)).1.lps "p" = some ⟨100, [⟨10, 40⟩]⟩ := by decide
+/-- a record re-dated to an earlier height is not covered by the request ledger, and counts for nothing -/
+example : genuineOK [⟨10, 40⟩] [⟨10, 40⟩] = true ∧ genuineOK [⟨10, 40⟩] [⟨7, 40⟩] = false ∧
+    removeRealOK [⟨10, 40⟩] 3 50 12 [⟨7, 40⟩] 40 true = false ∧ removeRealOK [⟨10, 40⟩] 3 50 13 [⟨10, 40⟩] 40 true = true := by decide
 /-- lock period 0: the same removal needs no request -/
 example : (step (run (St.init 0 50) (exampleHistory.take 1)) 5 (.removeUnits "p" 40 .pass)).2 = .ok := by decide
 
